@@ -45,6 +45,8 @@ M_SECTIONS = [
     [("h", "Colon: Name"), ("match", 'contains("A:B") and amount == 5'), ("category", "Food: Drink #1"), ("subcategory", "Sub # 2"),
      ("tags", "x, #y, z #w")],
     [("h", "Src"), ("match", 'source == "Amex" or regex("AM(EX|AZON)")'), ("subcategory", "OnlySub"), ("tags", "t1")],
+    # values holding characters that str.splitlines() (but not a line-oriented reader) treats as line ends
+    [("h", "Sep\u2028Name"), ("match", 'contains("AB\x0cCD") or contains("X")'), ("category", "Cat\x0bVT"), ("subcategory", "Sub\x85NEL"), ("tags", "t\u2029p, q")],
 ]
 M_PREAMBLES = [
     [],
@@ -215,6 +217,10 @@ def layout_edits(fmt, text):
     for i in range(len(lines) + 1):
         emit(f"comment@{i}", lines[:i] + ["# note: x = 1"] + lines[i:])
         emit(f"icomment@{i}", lines[:i] + ["   # [NotAHeader]"] + lines[i:])
+        if i % 2 == 0:
+            # one comment line whose text holds Unicode / C0 "line boundary" characters followed by text that would be a live
+            # line of the format: only \n (or \r\n) ends a line
+            emit(f"ucomment@{i}", lines[:i] + ["# was:\u2028category: Hijack\x0cfilter: false\x85priority: 1\x0bmatch: true\u2029[Ghost]\x1csubcategory: G"] + lines[i:])
         emit(f"blank@{i}", lines[:i] + ["   "] + lines[i:])
     in_section = False
     for i, (l, k) in enumerate(zip(lines, kinds)):
